@@ -296,6 +296,15 @@ func arithFingerprint(prog *Program, pk *packages.Package, node ast.Node, contVa
 					}
 				}
 			}
+		case *ast.IncDecStmt:
+			// a counter or cursor moved outside a loop header (p.mi++): which branch moves it matters
+			if t := info.TypeOf(x.X); t != nil {
+				if b, isB := t.Underlying().(*types.Basic); isB && b.Info()&types.IsInteger != 0 {
+					if _, isSel := ast.Unparen(x.X).(*ast.SelectorExpr); isSel {
+						add("", x)
+					}
+				}
+			}
 		case *ast.BranchStmt:
 			if x.Label != nil {
 				set[x.Tok.String()+" "+x.Label.Name]++
